@@ -142,7 +142,7 @@ func (r *Runner) RunAll(insts []*vm.Instance, perInst time.Duration) []*InstResu
 		wg.Add(1)
 		go func() {
 			defer wg.Done()
-			s, err := sym.NewSolver(r.Solver, sym.NewCtx(), r.QueryMs)
+			s, err := sym.NewSolverOpt(r.Solver, sym.NewCtx(), r.QueryMs, true)
 			if err != nil {
 				panic(err)
 			}
@@ -377,7 +377,7 @@ func Execute(id, tier string, seed int64, verbose bool) int {
 	if tier == "thorough" {
 		qms = 120000
 	}
-	r := &Runner{Prog: prog, Workers: workers, Solver: "z3", QueryMs: qms, Tier: tier, Seed: seed, Verbose: verbose, MaxPaths: 400000}
+	r := &Runner{Prog: prog, Workers: workers, Solver: solverChoice(), QueryMs: qms, Tier: tier, Seed: seed, Verbose: verbose, MaxPaths: 400000}
 	perInst := fam.PerInst
 	if perInst == 0 {
 		perInst = 5 * time.Minute
@@ -488,6 +488,7 @@ func Execute(id, tier string, seed int64, verbose bool) int {
 	_ = replayLog
 	confirmed, mismatches, validated := 0, []string{}, 0
 	newViol, knownHits := 0, map[string]bool{}
+	os.RemoveAll(filepath.Join(VerifDir, "replays", id))
 	os.MkdirAll(filepath.Join(VerifDir, "replays", id), 0o755)
 	seenKeys := map[string]bool{}
 	for i, v := range allViol {
@@ -542,7 +543,7 @@ func Execute(id, tier string, seed int64, verbose bool) int {
 	ev := &Evidence{PropertyID: id, Tier: tier, Seed: seed, Level: "model_checking", WallS: time.Since(t0).Seconds(), Violations: newViol,
 		Assumptions: append([]string{
 			"go/ssa (x/tools v0.29.0) is the meaning of the source; gosym's instruction semantics (validated by selftest and sampled native replays)",
-			"z3 4.8.12 answers are trusted; every unknown/error makes the instance inconclusive",
+			"the SMT solver's answers (z3 5.1.0 by default) are trusted; every unknown/error makes the instance inconclusive",
 		}, chk.Assume...),
 		Coverage: map[string]interface{}{
 			"states":                        paths,
@@ -610,4 +611,13 @@ func Execute(id, tier string, seed int64, verbose bool) int {
 		}
 	}
 	return code
+}
+
+
+// solverChoice: z3 5.1.0 (z3-new) decides the queries; GOSYM_SOLVER overrides.
+func solverChoice() string {
+	if s := os.Getenv("GOSYM_SOLVER"); s != "" {
+		return s
+	}
+	return "z3-new"
 }
